@@ -30,6 +30,13 @@ type inv struct {
 	FailIn string `json:"fail_in,omitempty"`
 	ModB   int    `json:"mod_b,omitempty"`
 	Where  string `json:"where,omitempty"` // top | fn
+	// OS: the invocation's context carries its own virtual OS ("A" or "B": own environment, own cwd,
+	// own stdout buffer); "" = a plain context
+	OS string `json:"os,omitempty"`
+	// Quiet (flavour "os"): no OS is configured anywhere, so the real one is in effect: only read
+	Quiet bool `json:"quiet,omitempty"`
+
+	forceHostmut bool // generator only: an earlier RunCode of the history has flavour hostmut
 	// SameCode: RunCode passes the very same *compiler.Code object as the last RunCode with identical source
 	SameCode bool `json:"same_code,omitempty"`
 	// Background: the invocation gets context.Background() (no Done channel, hence no watcher)
@@ -46,7 +53,13 @@ type history struct {
 	// XStyle (repl sessions): how a Run piece updates the global x before its behaviour: "top" by the
 	// top-level statement `x = x + inc`, "fn" through the function fset defined by the set-up
 	XStyle string `json:"xstyle,omitempty"`
-	Invs   []inv  `json:"invs"`
+	// OptsOnce (runcode sessions): the VM options (globals, importer) are passed with the set-up RunCode
+	// only; the later RunCode calls get the code object and nothing else
+	OptsOnce bool `json:"opts_once,omitempty"`
+	// VMOS: the VM is created with vm.WithOS(C); SetupOS: the set-up invocation's context carries that OS
+	VMOS    bool   `json:"vm_os,omitempty"`
+	SetupOS string `json:"setup_os,omitempty"`
+	Invs    []inv  `json:"invs"`
 }
 
 func (h *history) key() string {
@@ -54,6 +67,15 @@ func (h *history) key() string {
 	b.WriteString(h.Session)
 	if h.XStyle != "" {
 		b.WriteString("(" + h.XStyle + ")")
+	}
+	if h.OptsOnce {
+		b.WriteString("(opts-once)")
+	}
+	if h.VMOS {
+		b.WriteString("(vm-os)")
+	}
+	if h.SetupOS != "" {
+		b.WriteString("(setup-os-" + h.SetupOS + ")")
 	}
 	for _, v := range h.Invs {
 		fmt.Fprintf(&b, "/%s.%s.%s", v.API, v.Beh, v.Flavor)
@@ -68,6 +90,9 @@ func (h *history) key() string {
 		}
 		if v.SameCode {
 			b.WriteString(".same")
+		}
+		if v.OS != "" {
+			b.WriteString(".os" + v.OS)
 		}
 		if v.Background {
 			b.WriteString(".bg")
@@ -95,15 +120,17 @@ func (h *history) nontrivial() bool {
 var behaviours = []string{"value", "error", "panic", "sovf", "fovf", "cancelled"}
 
 var flavours = map[string][]string{
-	"value": {"plain", "tick", "tick", "inc", "try", "import", "callback"},
-	"error": {"index", "mid", "loop", "switch", "raise", "top", "under-defers"},
-	"panic": {"div", "mod", "closure", "div-under-defers", "callback-under-defers", "defer-fails-during-panic", "mod", "mod", "mod"},
-	"sovf":  {"fn", "top"},
+	// "mod": the behaviour happens in a module body during an import; "hostmut": the code rebinds /
+	// mutates host-provided globals; "os": the result depends on the OS in effect for the invocation
+	"value": {"plain", "tick", "tick", "inc", "try", "import", "callback", "mod", "mod", "mod", "hostmut", "hostmut", "hostmut", "os", "os", "os"},
+	"error": {"index", "mid", "loop", "switch", "raise", "top", "under-defers", "mod"},
+	"panic": {"div", "modulo", "closure", "div-under-defers", "callback-under-defers", "defer-fails-during-panic", "mod", "mod", "mod"},
+	"sovf":  {"fn", "top", "mod"},
 	// frame overflow: plain runaway recursion, and recursion whose every level has a pending script-level
 	// defer (of a function / of a closure), so that the overflow panic unwinds through the deferred calls;
 	// "defer-self": the deferred call itself recurses during the unwind
-	"fovf":      {"rec", "defer-fn", "defer-closure", "defer-fn", "defer-closure", "defer-self"},
-	"cancelled": {"tick", "tick", "mod"},
+	"fovf":      {"rec", "defer-fn", "defer-closure", "defer-fn", "defer-closure", "defer-self", "mod", "mod", "mod"},
+	"cancelled": {"tick", "tick", "mod", "hostmut"},
 }
 
 const bigList = 1100 // more literal elements than the operand stack has slots
@@ -156,6 +183,11 @@ func fclos(a) { return func(b) { return func(c) { return a + b + c } } }
 func fclos3(a) { return fclos(a)(2)(3) }
 func frec(n) { return frec(n + 1) + 1 }
 func noop() { return 0 }
+func fos(a) {
+	print("c07-mark")
+	return os.getenv("C07VAR") + "|" + os.getwd() + "|" + string(a + x)
+}
+func fosq(a) { return os.getenv("C07VAR") + "|" + string(a + x) }
 func fimpa(a) {
 	import ma
 	return ma.val + a + x
@@ -219,6 +251,17 @@ func callOf(v *inv) (fn string, args []int, inline string) {
 		}
 		return "fimp" + v.Mod[1:], []int{v.A}, ""
 	}
+	if v.Flavor == "hostmut" && v.API == "RunCode" {
+		// the code rebinds a host-provided int, mutates a host-provided list and map in place; every
+		// RunCode starts from the host's values (100, [1, 2, 3], {"n": 1})
+		return "", nil, fmt.Sprintf("hq = hq - 60\nif hq < 0 { error(\"quota exceeded\") }\nhl.append(hq)\nhm[\"n\"] = hm[\"n\"] + 1\n[hq, hl, hm[\"n\"], ftick(%d)]", v.A)
+	}
+	if v.Flavor == "os" {
+		if v.Quiet {
+			return "fosq", []int{v.A}, ""
+		}
+		return "fos", []int{v.A}, ""
+	}
 	switch v.Beh {
 	case "value":
 		switch v.Flavor {
@@ -256,7 +299,7 @@ func callOf(v *inv) (fn string, args []int, inline string) {
 		return "ferr", []int{v.D}, ""
 	case "panic":
 		switch v.Flavor {
-		case "mod":
+		case "modulo":
 			return "fmod", []int{0}, ""
 		case "closure":
 			return "fclos3", []int{1}, ""
@@ -303,12 +346,15 @@ func exprOf(v *inv) string {
 
 // ticks reports whether the invocation calls tick() (so that an event can be placed "during" it)
 func ticks(v *inv) bool {
-	return (v.Beh == "value" && v.Flavor == "tick") || v.Beh == "cancelled"
+	return (v.Beh == "value" && (v.Flavor == "tick" || (v.Flavor == "hostmut" && v.API == "RunCode"))) || v.Beh == "cancelled"
 }
 
 func fillParams(r *mon.Rand, v *inv, session string, i int, withEvents bool) {
 	fl := flavours[v.Beh]
 	v.Flavor = fl[r.Intn(len(fl))]
+	if v.forceHostmut {
+		v.Flavor = "hostmut"
+	}
 	v.A = r.Range(3, 40)
 	v.Inc = r.Range(1, 9)
 	if v.Beh == "error" {
@@ -340,7 +386,19 @@ func fillParams(r *mon.Rand, v *inv, session string, i int, withEvents bool) {
 			}
 		}
 	}
-	if v.API == "RunCode" && r.Chance(1, 4) {
+	v.OS = mon.Pick(r, []string{"", "", "A", "B"})
+	if v.Flavor == "hostmut" {
+		if v.API != "RunCode" {
+			if v.Beh == "value" {
+				v.Flavor = "plain"
+			} else {
+				v.Flavor = "tick"
+			}
+		} else if v.Beh == "cancelled" {
+			v.K = mon.Pick(r, []int{1, 2})
+		}
+	}
+	if v.API == "RunCode" && (r.Chance(1, 4) || (v.Flavor == "hostmut" && (v.forceHostmut || r.Chance(2, 3)))) {
 		v.SameCode = true
 	}
 	if v.Beh != "cancelled" && r.Chance(1, 8) {
@@ -352,7 +410,7 @@ func fillParams(r *mon.Rand, v *inv, session string, i int, withEvents bool) {
 			v.OldWhen = "before"
 		} else {
 			v.OldWhen = "during"
-			if v.Beh == "value" {
+			if v.Beh == "value" && !ticks(v) {
 				v.Flavor = "tick"
 				v.Mod, v.FailIn, v.ModB, v.Where = "", "", 0, ""
 			}
@@ -400,12 +458,15 @@ func exhaustive(r *mon.Rand, maxLen int, reps int) []history {
 						if session == "repl" {
 							h.XStyle = mon.Pick(rr, []string{"top", "fn"})
 						}
+						historyParams(rr, &h)
 						for i, s := range prefix {
 							v := inv{API: s.api, Beh: s.beh}
+							v.forceHostmut = repeatsHostmut(rr, &h, &v)
 							fillParams(rr, &v, session, i+1, ev)
 							h.Invs = append(h.Invs, v)
 						}
 						normalise(&h)
+						finish(&h)
 						out = append(out, h)
 					}
 				}
@@ -432,6 +493,7 @@ func sampled(r *mon.Rand, n int) []history {
 		if session == "repl" {
 			h.XStyle = mon.Pick(rr, []string{"top", "fn"})
 		}
+		historyParams(rr, &h)
 		l := rr.Range(4, 6)
 		for i := 0; i < l; i++ {
 			v := inv{API: mon.Pick(rr, apis)}
@@ -441,10 +503,12 @@ func sampled(r *mon.Rand, n int) []history {
 			} else {
 				v.Beh = mon.Pick(rr, behaviours[1:])
 			}
+			v.forceHostmut = repeatsHostmut(rr, &h, &v)
 			fillParams(rr, &v, session, i+1, rr.Chance(3, 4))
 			h.Invs = append(h.Invs, v)
 		}
 		normalise(&h)
+		finish(&h)
 		out = append(out, h)
 	}
 	return out
@@ -470,7 +534,16 @@ func normalise(h *history) {
 		found := false
 		for j := i - 1; j >= 0 && !found; j-- {
 			p := &h.Invs[j]
-			if p.API == "RunCode" && p.Beh == v.Beh && (v.OldWhen != "during" || ticks(p)) {
+			if v.Flavor == "hostmut" && p.API == "RunCode" && p.Flavor == "hostmut" {
+				// the same code object whatever the earlier run's end (value or cancelled at its k-th tick)
+				v.A, v.Inc = p.A, p.Inc
+				if v.OldWhen == "during" && v.OldTick > v.A {
+					v.OldTick = v.A
+				}
+				found = true
+				continue
+			}
+			if p.API == "RunCode" && p.Beh == v.Beh && v.Flavor != "hostmut" && p.Flavor != "hostmut" && (v.OldWhen != "during" || ticks(p)) {
 				v.Flavor, v.D, v.A, v.K, v.Inc = p.Flavor, p.D, p.A, p.K, p.Inc
 				v.Mod, v.FailIn, v.ModB, v.Where = p.Mod, p.FailIn, p.ModB, p.Where
 				if v.OldWhen == "during" {
@@ -572,4 +645,37 @@ func preloadLines(l map[string]bool) (string, int) {
 		}
 	}
 	return b.String(), n
+}
+
+func historyParams(r *mon.Rand, h *history) {
+	if h.Session == "runcode" {
+		h.OptsOnce = r.Bool()
+	}
+	h.VMOS = r.Chance(1, 4)
+	h.SetupOS = mon.Pick(r, []string{"", "A", "B"})
+}
+
+// finish fixes what depends on the whole history: an "os" invocation may print only when some virtual OS
+// is in effect for it
+func finish(h *history) {
+	for i := range h.Invs {
+		v := &h.Invs[i]
+		if v.Flavor == "os" {
+			v.Quiet = v.OS == "" && !h.VMOS
+		}
+	}
+}
+
+// repeatsHostmut: a RunCode (value or cancelled) that follows a RunCode of flavour hostmut runs, two
+// times out of three, the very same code object again
+func repeatsHostmut(r *mon.Rand, h *history, v *inv) bool {
+	if v.API != "RunCode" || (v.Beh != "value" && v.Beh != "cancelled") {
+		return false
+	}
+	for _, p := range h.Invs {
+		if p.API == "RunCode" && p.Flavor == "hostmut" {
+			return r.Chance(2, 3)
+		}
+	}
+	return false
 }
